@@ -118,6 +118,16 @@ func (e *effPL) event(t string) int64 {
 	return e.thr["events_default"]
 }
 
+func (e *effPL) eventAs(t string, asState bool) int64 {
+	if l, ok := e.events[t]; ok {
+		return l
+	}
+	if asState {
+		return e.thr["state_default"]
+	}
+	return e.thr["events_default"]
+}
+
 func (e *effPL) notif(k string) int64 {
 	if l, ok := e.notifs[k]; ok {
 		return l
@@ -187,15 +197,24 @@ func checkNoEscalation(c *mon.Ctx, t *ref.VersionTraits, creators []string, cur,
 		return out
 	}
 	for _, k := range keys(o.events, n.events) {
-		ov, nv := o.event(k), n.event(k)
-		if ov == nv {
-			continue
-		}
-		c.Count("changed|events")
-		if nv > sl {
-			fail("events", "events["+k+"]", ov, nv)
-		} else if ov > sl {
-			fail("events:was-above-sender", "events["+k+"]", ov, nv)
+		// the level needed to send an event of this type: the entry, or - where there is none - events_default for a
+		// message event and state_default for a state event. Adding or removing an entry changes one of the two even
+		// when it happens to equal the other default.
+		for _, asState := range []bool{false, true} {
+			ov, nv := o.eventAs(k, asState), n.eventAs(k, asState)
+			if ov == nv {
+				continue
+			}
+			what := "events[" + k + "] (sent as a message event)"
+			if asState {
+				what = "events[" + k + "] (sent as a state event)"
+			}
+			c.Count("changed|events")
+			if nv > sl {
+				fail("events", what, ov, nv)
+			} else if ov > sl {
+				fail("events:was-above-sender", what, ov, nv)
+			}
 		}
 	}
 	if t.PLNotifChecks {
